@@ -59,14 +59,14 @@ func SortStrings(a []string) {
 }
 
 var LeafKinds = []string{
-	"new", "newf", "assertf", "unimpl", "domnew", "goerr", "sentinel", "pkgnew",
+	"new", "newf", "assertf", "unimpl", "unimplf", "stleaf", "domnew", "goerr", "sentinel", "pkgnew",
 	"grpcstatus", "gogostatus", "addrerr", "dnsleaf", "unknownnet",
 	"uleafptr", "uleafval", "uleafnc", "uleaffmtold", "uleafformatter", "uleafsafefmt",
 	"rleaf", "risleaf", "prototest", "uoptleaf", "uleafas",
 }
 
 var WrapKinds = []string{
-	"wrap", "wrapf", "withmsg", "withmsgf", "stack", "hint", "detail", "safedetails",
+	"wrap", "wrapf", "withmsg", "withmsgf", "stack", "hint", "hintf", "detail", "detailf", "safedetails", "stwrap",
 	"telemetry", "domain", "issuelink", "tags", "assertion", "mark", "secondary", "combine", "wrapferr", "wrapfgosyntax",
 	"handled", "handledmsg", "handledmsgf", "handledmsgf0", "handledsafemsg", "handleddomain", "handleddomainmsg", "domhandled", "handleassert", "assertwrap",
 	"newfw", "newfwsuffix", "httpcode", "grpccode",
@@ -173,6 +173,15 @@ func (g *Cfg) LeafOf(t *rapid.T, k string) *Spec {
 	switch k {
 	case "new", "domnew", "goerr", "pkgnew", "uleafas", "uleafptr", "uleafval", "uleafnc", "uleaffmtold", "rleaf", "uoptleaf", "unknownnet":
 		s.S = []string{str(t, "msg")}
+	case "stleaf":
+		s.S = []string{str(t, "msg")}
+		s.I = []int{rapid.IntRange(1, 16).Draw(t, "code")}
+	case "unimplf":
+		// S[0..2] format parts, S[3] url, S[4] detail
+		s.S = []string{str(t, "lit"), str(t, "uarg"), str(t, "sarg"), str(t, "url"), str(t, "detail")}
+		if rapid.IntRange(0, 3).Draw(t, "nourl") == 0 {
+			s.S[3] = ""
+		}
 	case "newf", "assertf":
 		// S[0] safe literal, S[1] unsafe arg, S[2] safe arg
 		s.S = []string{str(t, "lit"), str(t, "uarg"), str(t, "sarg")}
@@ -233,6 +242,11 @@ func (g *Cfg) WrapOf(t *rapid.T, k string, c *Spec) *Spec {
 		s.X = []*Spec{nil}
 	case "handledmsgf0":
 		s.S = []string{str(t, "lit")}
+	case "stwrap":
+		s.S = []string{str(t, "msg")}
+		s.I = []int{rapid.IntRange(1, 16).Draw(t, "code")}
+	case "hintf", "detailf":
+		s.S = []string{str(t, "lit"), str(t, "uarg"), str(t, "sarg")}
 	case "wrapfgosyntax":
 		// Wrapf with an error argument printed with %#v.
 		s.S = []string{str(t, "lit")}
